@@ -1,11 +1,32 @@
 package main
 
 import (
+	"unsafe"
+
 	"github.com/bytedance/gopkg/lang/mcache"
 	"verif/engine/alloc"
+	"verif/engine/vsched"
 )
+
+// freeAsPoint makes every return of a block to the pool a scheduling point that writes the
+// "pool" object, and examinePool() a point that reads it: scenarios whose oracle reads result
+// memory (lb.share) need the order "block freed / result examined" to be part of the
+// happens-before state, or the state cache would merge the two orders.
+var (
+	freeAsPoint bool
+	poolObjVar  int
+)
+
+func poolObj() uintptr { return uintptr(unsafe.Pointer(&poolObjVar)) }
+
+func examinePool(what string) { vsched.Point(vsched.KRead, poolObj(), false, what) }
 
 func init() {
 	mcache.MallocHook = alloc.Malloc
-	mcache.FreeHook = alloc.Free
+	mcache.FreeHook = func(b []byte) {
+		if freeAsPoint && cap(b) > 0 {
+			vsched.Point(vsched.KWrite, poolObj(), true, "pool.Free")
+		}
+		alloc.Free(b)
+	}
 }
